@@ -60,7 +60,8 @@ class C09(Machine):
                    "non_local_toggled", "non_local_damped_pair",
                    "boundary_pairs_skipped", "ties_at_selected_threshold",
                    "directed_asymmetric", "winter_only_toggled",
-                   "monotonicity_pairs_checked")
+                   "monotonicity_pairs_checked",
+                   "fortran_ordered_similarity")
     # reported, un-judged conditions (not in probe_names: zero is fine)
     info_probes = ("asymmetric_similarity_undirected",
                    "density_clause_skipped_small_diagonal")
@@ -99,7 +100,10 @@ class C09(Machine):
         if cls == "ClimateNetwork":
             asym = a.random() < 0.25
             sim = {"sseed": a.randrange(10 ** 9), "ties": a.random() < 0.5,
-                   "neg": a.random() < 0.5, "asym": asym}
+                   "neg": a.random() < 0.5, "asym": asym,
+                   # memory layout and dtype of the caller's matrix
+                   "layout": a.choice(("C", "C", "F")),
+                   "dtype": a.choice(("float64", "float64", "float32"))}
             cfg["directed"] = asym or a.random() < 0.1
         else:
             g["T"] = a.choice((24, 36, 40))
@@ -165,8 +169,12 @@ class C09(Machine):
             iv = resolve(cfg["init_value"], W0)
             kw[cfg["init"] if cfg["init"] == "threshold" else
                "link_density"] = iv
+            Sin = S0.astype(run["similarity"].get("dtype", "float64"))
+            if run["similarity"].get("layout") == "F":
+                Sin = np.asfortranarray(Sin)
+                R.probe("fortran_ordered_similarity")
             net = C.call(lambda: ClimateNetwork(
-                grid=grid, similarity_measure=S0.copy(), directed=directed,
+                grid=grid, similarity_measure=Sin, directed=directed,
                 **kw))
             if directed and run["similarity"]["asym"]:
                 R.probe("directed_asymmetric")
